@@ -509,7 +509,11 @@ pub fn replay(t: &dyn Target, cases_path: &str, out_path: &str, trace_path: &str
         let classes: Vec<&str> = line["s"].as_array().map(|a| a.iter().filter_map(|x| x.as_str()).collect()).unwrap_or_default();
         let g = &line["g"];
         let iexp = &line["i"];
-        for var in 0..nvar {
+        // short strings are concretised with EVERY literal of their richest class (near-miss junk such
+        // as "CS_m", "01.2.3.4", "fffff" must meet every leaf position), longer ones with `nvar` variants
+        let maxlits = classes.iter().map(|c| if class_kind(c) == "a" { atom_literals(c).len() } else { literals(c).len() }).max().unwrap_or(1);
+        let nv = if classes.len() <= 6 { nvar.max(maxlits) } else { nvar };
+        for var in 0..nv {
             // concretise
             let mut s = String::new();
             for (p, c) in classes.iter().enumerate() {
@@ -518,7 +522,8 @@ pub fn replay(t: &dyn Target, cases_path: &str, out_path: &str, trace_path: &str
                     eprintln!("unknown class {c}");
                     std::process::exit(2);
                 }
-                let idx = (var as u64 * 5 + p as u64 * 3 + ci as u64 + seed) as usize % lits.len();
+                // stride 1 in `var`: over lits.len() variants every literal of the class occurs at this position
+                let idx = (var as u64 + p as u64 * 3 + ci as u64 + seed) as usize % lits.len();
                 s.push_str(lits[idx]);
             }
             if !seen.insert(s.clone()) {
@@ -600,7 +605,7 @@ pub fn replay(t: &dyn Target, cases_path: &str, out_path: &str, trace_path: &str
 // record: displayed forms, single-character edits, short strings -> trace lines
 // ------------------------------------------------------------------------------------------
 pub const EDIT_CHARS: &[char] = &[
-    '[', ']', ',', '-', ':', ';', ' ', '0', '1', '9', 'a', 'f', 'F', 'g', 'x', '.', '_', '+', '\u{e9}', '\u{1f600}', '\u{3000}', 'C', 'S', 'M', 'A', '=', '<', '\t',
+    '[', ']', ',', '-', ':', ';', ' ', '0', '1', '9', 'a', 'f', 'F', 'g', 'x', '.', '_', '+', '\u{e9}', '\u{1f600}', '\u{3000}', 'C', 'S', 'M', 'A', '=', '<', '\t', 'm', 's',
 ];
 
 fn single_edits(s: &str) -> Vec<String> {
